@@ -18,8 +18,8 @@ use vsched::rt;
 use vsched::thread as vthread;
 
 /// `inl`=1 (any scenario): every task the harness awaits is run by a *run-on-wake executor*: its waker polls the task on the
-/// spot, on whatever thread delivers the wake-up, under the task's own lock (which the awaiting thread also holds while it
-/// polls).  Legal and not even rare (an executor built on a Desync works like this); it punishes library code that calls
+/// spot, on whatever thread delivers the wake-up (unless the task is being polled at that moment: then that poller polls
+/// once more).  Legal and not even rare (an executor built on a Desync works like this); it punishes library code that calls
 /// a user's waker while holding one of its own locks.
 static INLINE_WAKERS: std::sync::atomic::AtomicBool = std::sync::atomic::AtomicBool::new(false);
 
@@ -41,8 +41,6 @@ where
 struct InlineTask {
     /// the task lock: held while the task is polled, by the awaiting thread and by every waker alike
     fut: vsched::sync::Mutex<Option<Pin<Box<dyn Future<Output = ()> + Send + 'static>>>>,
-    /// the virtual thread that is polling right now (a wake-up from inside the poll asks for another poll instead)
-    polling: StdMutex<Option<usize>>,
     repoll: std::sync::atomic::AtomicBool,
     done: BGate,
 }
@@ -54,42 +52,38 @@ impl futures::task::ArcWake for InlineTask {
 }
 
 impl InlineTask {
+    /// Never blocks: if the task is being polled right now (by another thread, or by this very thread further up the stack)
+    /// that poller is told to poll once more.
     fn poll_now(a: &Arc<Self>) {
-        let me = vthread::current().id();
-        if *a.polling.lock().unwrap() == Some(me) {
-            a.repoll.store(true, AO::SeqCst);
-            return;
-        }
-        let mut finished = false;
-        {
-            let mut g = match a.fut.lock() {
-                Ok(g) => g,
-                Err(_) => return,
-            };
-            *a.polling.lock().unwrap() = Some(me);
-            loop {
-                a.repoll.store(false, AO::SeqCst);
-                let ready = match g.as_mut() {
-                    None => break,
-                    Some(f) => {
-                        let w = futures::task::waker(a.clone());
-                        let mut cx = Context::from_waker(&w);
-                        f.as_mut().poll(&mut cx).is_ready()
+        a.repoll.store(true, AO::SeqCst);
+        loop {
+            let mut finished = false;
+            match a.fut.try_lock() {
+                Ok(mut g) => {
+                    while a.repoll.swap(false, AO::SeqCst) {
+                        let ready = match g.as_mut() {
+                            None => false,
+                            Some(f) => {
+                                let w = futures::task::waker(a.clone());
+                                let mut cx = Context::from_waker(&w);
+                                f.as_mut().poll(&mut cx).is_ready()
+                            }
+                        };
+                        if ready {
+                            *g = None;
+                            finished = true;
+                        }
                     }
-                };
-                if ready {
-                    *g = None;
-                    finished = true;
-                    break;
                 }
-                if !a.repoll.load(AO::SeqCst) {
-                    break;
-                }
+                Err(_) => return,
             }
-            *a.polling.lock().unwrap() = None;
-        }
-        if finished {
-            a.done.open();
+            if finished {
+                a.done.open();
+                return;
+            }
+            if !a.repoll.load(AO::SeqCst) {
+                return;
+            }
         }
     }
 }
@@ -107,7 +101,7 @@ where
     let boxed: Pin<Box<dyn Future<Output = ()> + Send + '_>> = Box::pin(wrapped);
     // (the future is destroyed, inside `poll_now`, before this function returns: wakers that outlive it find `None`)
     let boxed: Pin<Box<dyn Future<Output = ()> + Send + 'static>> = unsafe { std::mem::transmute(boxed) };
-    let task = Arc::new(InlineTask { fut: vsched::sync::Mutex::new(Some(boxed)), polling: StdMutex::new(None), repoll: std::sync::atomic::AtomicBool::new(false), done: BGate::new() });
+    let task = Arc::new(InlineTask { fut: vsched::sync::Mutex::new(Some(boxed)), repoll: std::sync::atomic::AtomicBool::new(false), done: BGate::new() });
     InlineTask::poll_now(&task);
     task.done.wait();
     let v = slot.lock().unwrap().take();
@@ -493,6 +487,8 @@ pub struct Body {
     /// async bodies: return Pending once without arranging any wake-up and be Ready when polled again (only a spurious
     /// re-poll, e.g. by another runner taking the queue over, completes it)
     pub silent_step: bool,
+    /// async bodies: block (synchronously, inside the first poll) on this gate before anything is awaited
+    pub hold: Option<BGate>,
 }
 
 impl Body {
@@ -600,6 +596,46 @@ impl Future for SelfWake {
     }
 }
 
+/// A cooperative yield: the first poll wakes the polling context's waker and returns Pending, the second is Ready
+pub struct YieldOnce(pub bool);
+impl Future for YieldOnce {
+    type Output = ();
+    fn poll(mut self: Pin<&mut Self>, cx: &mut Context) -> Poll<()> {
+        vthread::yield_now();
+        if self.0 {
+            Poll::Ready(())
+        } else {
+            self.0 = true;
+            cx.waker().wake_by_ref();
+            vthread::yield_now();
+            Poll::Pending
+        }
+    }
+}
+
+/// Pending on its first poll (nothing registered: the caller is expected to be woken by other means), Ready on the next
+pub struct WaitOnce(pub bool);
+impl Future for WaitOnce {
+    type Output = ();
+    fn poll(mut self: Pin<&mut Self>, _cx: &mut Context) -> Poll<()> {
+        if self.0 {
+            Poll::Ready(())
+        } else {
+            self.0 = true;
+            Poll::Pending
+        }
+    }
+}
+
+/// Polls the inner future exactly once and reports what it said
+pub struct PollOnce<'a, F: Future + Unpin>(pub &'a mut F);
+impl<'a, F: Future + Unpin> Future for PollOnce<'a, F> {
+    type Output = Poll<F::Output>;
+    fn poll(mut self: Pin<&mut Self>, cx: &mut Context) -> Poll<Poll<F::Output>> {
+        Poll::Ready(Pin::new(&mut *self.0).poll(cx))
+    }
+}
+
 /// Pending on its first poll without registering or firing any waker, Ready on the next poll
 struct SilentTwoStep(bool);
 impl Future for SilentTwoStep {
@@ -628,6 +664,10 @@ async fn run_async(body: Body, rec: Arc<Rec>, op: OpId, st: Arc<ObjState>, name:
     if body.silent_step {
         SilentTwoStep(false).await;
         vthread::yield_now();
+    }
+    if let Some(h) = &body.hold {
+        // the operation stays inside this poll (its queue is Running on the polling thread) until the environment lets go
+        h.wait();
     }
     if let Some(g) = &body.gate {
         g.clone().await;
